@@ -13,6 +13,7 @@ P = {'id': 'C06',
               'hashstr_refines_map',
               'hashstr_counters',
               'easy_ext_refines_map',
+              'idx_batch_refines_map',
               'remove_loop_is_get_loop',
               'sentinel_unmapped_refuted',
               'tombstone_first_slot_refuted',
@@ -32,7 +33,7 @@ P = {'id': 'C06',
              '(ModelEasyX.v, theorem easy_ext_refines_map); the f64 load-factor test is a function parameter; shrink_to_fit and retain are not modelled',
              'modelled (M+S): src/containers/specialized/gold_hash_idx.rs - with_capacity, insert (resize check, unbounded probe, allocate_value with free-list pop or push, store_value), resize/resize_to '
              '(re-insertion of every bucket, old value slots not released), get/get_mut, remove (free_value, rehash_after_removal: take out and re-place the following cluster), len; the hash function '
-             '(AHasher) is a parameter; insert_batch, get_batch, shrink_to_fit and the memory statistics are not modelled; answers only are compared (the type exposes no layout)',
+             '(AHasher) is a parameter; insert_batch (pre-sizing through resize_to to any power of two + the insert loop: ModelIdxX.v, theorem idx_batch_refines_map) is modelled; get_batch, shrink_to_fit and the memory statistics are not modelled; answers only are compared (the type exposes no layout)',
              'modelled (M+S): src/containers/specialized/small_map.rs SmallMap<u8>::get_fast - impl OptimizedSearch for u8 at the level of the 16 byte lanes and the 32 mask bits (zero-initialised key buffer, '
              '_mm_loadl_epi64, _mm_cmpeq_epi8, _mm_movemask_epi8, the lane mask (1 << min(len,8)) - 1 of fix 3fcc283, trailing_zeros), find_key_index_simd (unrolled search up to 4 keys), get_fast; '
              'the SSE2 intrinsics are modelled by their documented lane semantics; the dead u32/u64/i32 search impls are not modelled',
